@@ -229,6 +229,10 @@ class Executor:
             st.pc.append(self.clause(r, st, old=None))
         return st
 
+    def param_names(self):
+        a = self.fn.args
+        return [p.arg for p in list(a.posonlyargs) + list(a.args) + list(a.kwonlyargs) if p.arg != "self"]
+
     def lemma_axioms(self):
         from .lemmas import lemma_formulas
         return lemma_formulas(self, self.spec.lemmas)
@@ -595,8 +599,14 @@ class Executor:
         self.n_ret += 1
         if self.spec.cover:
             self.emit(st, "cover", z3.BoolVal(False), line, expect="refutable")
+        # in ensures, parameter names denote the values at entry (parameters may be reassigned by the body)
+        pst = st.copy()
+        for p in self.param_names():
+            if p in self.old.vars:
+                pst.vars[p] = self.old.vars[p]
+        pst.pc = st.pc
         for k, e in enumerate(self.spec.ensures):
-            goal = self.clause(e, st, old=self.old, result=res)
+            goal = self.clause(e, pst, old=self.old, result=res)
             for j, g in enumerate(self.conjuncts(goal)):
                 nm_kind = f"post#{k}" + (f".{j}" if j else "")
                 self.emit(st, nm_kind, g, line)
